@@ -1,11 +1,93 @@
+/* Layer 1 of the MTBDD contracts (DESIGN.md 3.1 / 5-C17 / 5-C18): tag algebra, accessors,
+   constructors and reference-count primitives of src/mtbdd/mtbdd_node.hh and the case split of
+   classify_case.hh / apply3func.hh, against CONCRETE MEMORY: a node is a freshly allocated
+   InternalNode / LeafNode object with unconstrained fields, reached through the tagged word. */
 #include "common/mtbdd_mem.h"
-#define CONTRACT__ZN4VATA8MTBDDPkg13classifyCase2INS0_12MTBDDNodePtrIjEES3_EEcRKT_RKT0_ \
+/* entry-value ghosts (bound by a requires; __CPROVER_old mis-snapshots through tag-dependent casts) */
+uint64_t g_rc0; void* g_wit;   /* witness: an arbitrary object that exists before the call */
+#define RCP(a) (M_IS_LEAF(a) ? &M_LRC(a) : &M_IRC(a))
+
+#define INT_GE(a,b) (M_IS_LEAF(b) || M_VAR(a) >= M_VAR(b))
+
+#define CONTRACT_CLASSIFY2 \
  __CPROVER_requires(v_node1->f0 != 0 && v_node2->f0 != 0) \
  __CPROVER_assigns() \
  __CPROVER_ensures((__CPROVER_return_value & ~3) == 0) \
  /* bit k set <=> node k is internal and its variable is the maximum over the internal operands */ \
- __CPROVER_ensures(((__CPROVER_return_value & 1) != 0) == (M_IS_INT(v_node1->f0) && (M_IS_LEAF(v_node2->f0) || M_VAR(v_node1->f0) >= M_VAR(v_node2->f0)))) \
- __CPROVER_ensures(((__CPROVER_return_value & 2) != 0) == (M_IS_INT(v_node2->f0) && (M_IS_LEAF(v_node1->f0) || M_VAR(v_node2->f0) >= M_VAR(v_node1->f0)))) \
+ __CPROVER_ensures(((__CPROVER_return_value & 1) != 0) == (M_IS_INT(v_node1->f0) && INT_GE(v_node1->f0, v_node2->f0))) \
+ __CPROVER_ensures(((__CPROVER_return_value & 2) != 0) == (M_IS_INT(v_node2->f0) && INT_GE(v_node2->f0, v_node1->f0))) \
  /* derived: terminal case iff both leaves; both branched only for equal variables */ \
  __CPROVER_ensures((__CPROVER_return_value == 0) == (M_IS_LEAF(v_node1->f0) && M_IS_LEAF(v_node2->f0))) \
  __CPROVER_ensures((__CPROVER_return_value == 3) ==> (M_VAR(v_node1->f0) == M_VAR(v_node2->f0)))
+
+#define CONTRACT_CLASSIFY3 \
+ __CPROVER_requires(v_node1_coerce != 0 && v_node2_coerce != 0 && v_node3_coerce != 0) \
+ __CPROVER_assigns() \
+ __CPROVER_ensures((__CPROVER_return_value & ~7) == 0) \
+ __CPROVER_ensures(((__CPROVER_return_value & 1) != 0) == (M_IS_INT(v_node1_coerce) && INT_GE(v_node1_coerce, v_node2_coerce) && INT_GE(v_node1_coerce, v_node3_coerce))) \
+ __CPROVER_ensures(((__CPROVER_return_value & 2) != 0) == (M_IS_INT(v_node2_coerce) && INT_GE(v_node2_coerce, v_node1_coerce) && INT_GE(v_node2_coerce, v_node3_coerce))) \
+ __CPROVER_ensures(((__CPROVER_return_value & 4) != 0) == (M_IS_INT(v_node3_coerce) && INT_GE(v_node3_coerce, v_node1_coerce) && INT_GE(v_node3_coerce, v_node2_coerce))) \
+ __CPROVER_ensures((__CPROVER_return_value == 0) == (M_IS_LEAF(v_node1_coerce) && M_IS_LEAF(v_node2_coerce) && M_IS_LEAF(v_node3_coerce)))
+
+/* ---- tag algebra ---- */
+#define CONTRACT_IS_LEAF     __CPROVER_requires(v_node->f0 != 0) __CPROVER_assigns() __CPROVER_ensures(__CPROVER_return_value == M_IS_LEAF(v_node->f0))
+#define CONTRACT_IS_INTERNAL __CPROVER_requires(v_node->f0 != 0) __CPROVER_assigns() __CPROVER_ensures(__CPROVER_return_value == M_IS_INT(v_node->f0))
+#define CONTRACT_IS_NULL     __CPROVER_assigns() __CPROVER_ensures(__CPROVER_return_value == (v_node_coerce == 0))
+#define CONTRACT_N2L   __CPROVER_requires(v_node->f0 != 0 && M_IS_LEAF(v_node->f0)) __CPROVER_assigns() __CPROVER_ensures(__CPROVER_return_value == M_LEAF(v_node->f0) && ((uint64_t)__CPROVER_return_value | 1) == v_node->f0)
+#define CONTRACT_N2L_C CONTRACT_N2L
+#define CONTRACT_N2I   __CPROVER_requires(v_node->f0 != 0 && M_IS_INT(v_node->f0)) __CPROVER_assigns() __CPROVER_ensures(__CPROVER_return_value == M_INT(v_node->f0))
+#define CONTRACT_N2I_C CONTRACT_N2I
+#define CONTRACT_MK_LEAF __CPROVER_requires(v_node != 0 && ((uint64_t)v_node & 1) == 0) __CPROVER_assigns() \
+  __CPROVER_ensures(__CPROVER_return_value != 0 && M_IS_LEAF(__CPROVER_return_value) && M_LEAF(__CPROVER_return_value) == v_node)
+#define CONTRACT_MK_INT  __CPROVER_requires(v_node != 0 && ((uint64_t)v_node & 1) == 0) __CPROVER_assigns() \
+  __CPROVER_ensures(__CPROVER_return_value != 0 && M_IS_INT(__CPROVER_return_value) && M_INT(__CPROVER_return_value) == v_node)
+#define CONTRACT_NP_EQ __CPROVER_assigns() __CPROVER_ensures(__CPROVER_return_value == (v_this->f0 == v_rhs->f0))
+
+/* ---- accessors: the result is the field of the untagged object; nothing is written ---- */
+#define REQ_INT(p)  __CPROVER_requires((p)->f0 != 0 && M_IS_INT((p)->f0))
+#define CONTRACT_GET_VAR    REQ_INT(v_node) __CPROVER_assigns() __CPROVER_ensures(__CPROVER_return_value == &M_VAR(v_node->f0))
+#define CONTRACT_GET_VAR_C  CONTRACT_GET_VAR
+#define CONTRACT_GET_LOW    REQ_INT(v_node) __CPROVER_assigns() __CPROVER_ensures(__CPROVER_return_value == M_LOW(v_node->f0))
+#define CONTRACT_GET_LOW_C  CONTRACT_GET_LOW
+#define CONTRACT_GET_HIGH   REQ_INT(v_node) __CPROVER_assigns() __CPROVER_ensures(__CPROVER_return_value == M_HIGH(v_node->f0))
+#define CONTRACT_GET_HIGH_C CONTRACT_GET_HIGH
+#define CONTRACT_GET_DATA   __CPROVER_requires(v_node->f0 != 0 && M_IS_LEAF(v_node->f0)) __CPROVER_assigns() __CPROVER_ensures(__CPROVER_return_value == &M_DATA(v_node->f0))
+#define CONTRACT_GET_LEAF_RC __CPROVER_requires(v_node_coerce != 0 && M_IS_LEAF(v_node_coerce)) __CPROVER_assigns() __CPROVER_ensures(__CPROVER_return_value == &M_LRC(v_node_coerce))
+
+/* ---- constructors: a fresh object carrying exactly the arguments, reference count 0; nothing else written ---- */
+#define CONTRACT_CREATE_LEAF \
+  __CPROVER_assigns() \
+  __CPROVER_ensures(__CPROVER_return_value != 0 && M_IS_LEAF(__CPROVER_return_value)) \
+  /* a new, valid object: distinct from the arbitrary pre-existing witness object (is_fresh cannot take the untagging expression) */ \
+  __CPROVER_ensures(__CPROVER_rw_ok(M_LEAF(__CPROVER_return_value), sizeof(LF)) && !__CPROVER_same_object(M_LEAF(__CPROVER_return_value), g_wit)) \
+  __CPROVER_ensures(M_DATA(__CPROVER_return_value) == *v_data && M_LRC(__CPROVER_return_value) == 0)
+#define CONTRACT_CREATE_INT \
+  __CPROVER_requires(v_low_coerce != 0 && v_high_coerce != 0) \
+  __CPROVER_assigns() \
+  __CPROVER_ensures(__CPROVER_return_value != 0 && M_IS_INT(__CPROVER_return_value)) \
+  __CPROVER_ensures(__CPROVER_is_fresh(M_INT(__CPROVER_return_value), sizeof(IN))) \
+  __CPROVER_ensures(M_LOW(__CPROVER_return_value) == v_low_coerce && M_HIGH(__CPROVER_return_value) == v_high_coerce && M_VAR(__CPROVER_return_value) == *v_var && M_IRC(__CPROVER_return_value) == 0)
+
+/* ---- reference-count primitives: exactly +-1 on the counter of the tagged object, frame = that counter ---- */
+#define CONTRACT_INC_RC \
+  __CPROVER_requires(v_node_coerce != 0 && g_rc0 == *RCP(v_node_coerce) && g_rc0 < UINT64_MAX) \
+  __CPROVER_assigns(M_IS_LEAF(v_node_coerce): M_LRC(v_node_coerce); M_IS_INT(v_node_coerce): M_IRC(v_node_coerce)) \
+  __CPROVER_ensures(*RCP(v_node_coerce) == g_rc0 + 1)
+#define CONTRACT_DEC_LEAF_RC \
+  __CPROVER_requires(v_node_coerce != 0 && M_IS_LEAF(v_node_coerce) && g_rc0 == M_LRC(v_node_coerce) && g_rc0 >= 1) \
+  __CPROVER_assigns(M_LRC(v_node_coerce)) \
+  __CPROVER_ensures(M_LRC(v_node_coerce) == g_rc0 - 1 && __CPROVER_return_value == &M_LRC(v_node_coerce))
+#define CONTRACT_DEC_INT_RC \
+  __CPROVER_requires(v_node_coerce != 0 && M_IS_INT(v_node_coerce) && g_rc0 == M_IRC(v_node_coerce) && g_rc0 >= 1) \
+  __CPROVER_assigns(M_IRC(v_node_coerce)) \
+  __CPROVER_ensures(M_IRC(v_node_coerce) == g_rc0 - 1 && __CPROVER_return_value == &M_IRC(v_node_coerce))
+
+/* ---- deallocation: exactly the untagged object is freed ---- */
+#define CONTRACT_DEL_LEAF \
+  __CPROVER_requires(v_node_coerce != 0 && M_IS_LEAF(v_node_coerce)) \
+  __CPROVER_assigns() __CPROVER_frees(M_LEAF(v_node_coerce)) \
+  __CPROVER_ensures(__CPROVER_was_freed(M_LEAF(v_node_coerce)))
+#define CONTRACT_DEL_INT \
+  __CPROVER_requires(v_node_coerce != 0 && M_IS_INT(v_node_coerce)) \
+  __CPROVER_assigns() __CPROVER_frees(M_INT(v_node_coerce)) \
+  __CPROVER_ensures(__CPROVER_was_freed(M_INT(v_node_coerce)))
